@@ -33,6 +33,7 @@ type SymResult struct {
 	Err     bool   `json:"err"`
 	Lang    string `json:"lang"`    // "" no language meaning, "BAD" content is not a language code, else ISO 639-3 code the content resolves to
 	Content string `json:"content"` // explicit content (overrides id/len) when non-empty
+	Echo    bool   `json:"echo"`    // the result is the client's input as it is (what "store my name" functions do)
 }
 
 type Program struct {
